@@ -65,15 +65,15 @@ Proof.
 Qed.
 
 Lemma restart_fold_ok k c now m : forall l s b,
-  let r := fold_left (fun (acc : xs * bool) stage => if snd acc then acc else at_sim_start k c now m stage (fst acc)) l (s, b) in
+  let r := fold_left (fun (acc : xs * bool) stage => if snd acc then acc else restart_stage k c now m stage (fst acc)) l (s, b) in
   Fo m (x_w s) (x_w (fst r)) /\ LogExt m s (fst r).
 Proof.
   induction l as [|st l IH]; intros s b; cbn [fold_left fst snd]; [split; [apply Fo_refl|apply LogExt_refl]|].
   destruct b.
   - apply IH.
-  - destruct (at_sim_start_ok k c now m st s) as [H1 H2].
-    destruct (at_sim_start k c now m st s) as [s1 b1]. cbn [fst] in *.
-    destruct (IH s1 b1) as [H3 H4]. split; [eapply Fo_trans; eauto|eapply LogExt_trans; eauto].
+  - destruct (at_sim_start_ok k c now m st s) as [H1 H2]. unfold restart_stage.
+    destruct (at_sim_start k c now m st s) as [s1 b1]. cbn [fst snd] in *.
+    destruct (IH s1 (b1 || negb (active (w_mod (x_w s1) m)))) as [H3 H4]. split; [eapply Fo_trans; eauto|eapply LogExt_trans; eauto].
 Qed.
 
 Lemma module_restart_ok k c now m : CbOK m (module_restart k c now m).
